@@ -301,13 +301,18 @@ Proof.
   intros f l x. induction l as [|y l IH]; unfold zsum in *; cbn [app map fold_right]; lia.
 Qed.
 
+Lemma soften_ok : forall {A} safe (r : outcome A) x, soften safe r = Ok x -> r = Ok x.
+Proof. intros A safe r x H. destruct r; cbn [soften] in H; try assumption; try discriminate. destruct (safe && payout_panic site); discriminate. Qed.
+
 Section SpendingHistories.
 Variable dynguard : bool.
+Variable payout_safe : bool.
+Variable quorum_checked : bool.
 Variable actors : list (Z * list Z).
 Variable U : list Z.
-Notation apply := (sp_apply dynguard actors U).
-Notation step := (sp_step dynguard actors U).
-Notation run := (sp_run dynguard actors U).
+Notation apply := (sp_apply dynguard payout_safe quorum_checked actors U).
+Notation step := (sp_step dynguard payout_safe quorum_checked actors U).
+Notation run := (sp_run dynguard payout_safe quorum_checked actors U).
 
 Definition books_inv (s : sstate) : Prop := forall d, sum_books s d <= s_bank s MODULE d.
 
@@ -389,13 +394,13 @@ Proof.
   - (* register *) unfold sp_register in H. destruct (zget p (s_pools s)); [|discriminate].
     destruct (is_allowed_ben actors (p_terms p0) a); cbn [negb] in H; [|discriminate]. inversion H; subst s'.
     unfold sum_books. cbn [s_pools s_bank]. split; intros; lia.
-  - (* claim *) destruct (claim_step_facts _ _ _ _ _ H) as [A _]. split; [exact A | discriminate].
+  - (* claim *) apply soften_ok in H. destruct (claim_step_facts _ _ _ _ _ H) as [A _]. split; [exact A | discriminate].
   - (* update *) unfold sp_update in H. destruct (zget p (s_pools s)) as [P|] eqn:EP; [|discriminate].
     inversion H; subst s'. unfold sum_books. cbn [s_pools s_bank].
     split; intros; [rewrite (sum_zset (fun P => p_bal P d) p P _ _ EP); cbv beta; cbn [p_bal]|]; lia.
-  - (* distribute *) unfold sp_distribute in H. destruct (zget p (s_pools s)); [|discriminate].
+  - (* distribute *) apply soften_ok in H. unfold sp_distribute in H. destruct (zget p (s_pools s)); [|discriminate].
     destruct (claim_all_facts _ _ _ _ _ H) as [A _]. split; [exact A | discriminate].
-  - (* withdraw *) unfold sp_withdraw in H. destruct (zget p (s_pools s)) as [P|] eqn:EP; [|discriminate].
+  - (* withdraw *) apply soften_ok in H. unfold sp_withdraw in H. destruct (zget p (s_pools s)) as [P|] eqn:EP; [|discriminate].
     unfold bind in H. destruct (withdraw_loop actors (p_terms P) bens amt (p_bal P) (s_bank s)) as [[bal' b']| |] eqn:E; try discriminate.
     inversion H; subst s'. split; [|discriminate]. intro d. unfold sum_books. cbn [s_pools s_bank fst snd].
     rewrite (sum_zset (fun P => p_bal P d) p P _ _ EP). cbv beta. cbn [p_bal].
@@ -408,6 +413,14 @@ Proof.
     inversion H; subst s'. unfold sum_books. cbn [s_pools s_bank]. unfold MODULE in *.
     split; intros; pose proof (cof_nonneg amt d V); unfold bank_send, cadd, csub;
       assert ((-1 =? a) = false) as -> by lia; rewrite Z.eqb_refl; unfold cadd, csub; lia.
+  - (* create / update with a quorum outside [0,1]: refused, or as create / update *)
+    destruct quorum_checked; [discriminate|]. destruct upd.
+    + unfold sp_update in H. destruct (zget p (s_pools s)) as [P|] eqn:EP; [|discriminate].
+      inversion H; subst s'. unfold sum_books. cbn [s_pools s_bank].
+      split; intros; [rewrite (sum_zset (fun P => p_bal P d) p P _ _ EP); cbv beta; cbn [p_bal]|]; lia.
+    + unfold sp_create in H. destruct (weights_ok T); cbn [negb] in H; [|discriminate].
+      destruct (zhas p (s_pools s)); [discriminate|]. inversion H; subst s'. unfold sum_books. cbn [s_pools s_bank].
+      split; intros; [rewrite (sum_app1 (fun P => p_bal P d))|]; cbv beta; cbn [snd p_bal]; unfold czero; lia.
 Qed.
 
 Lemma step_unfold : forall s e, step s e = match apply (fst e) (snd e) s with Ok s' => s' | _ => s end.
@@ -491,11 +504,11 @@ Proof.
     exfalso. apply Hnin. assert (k' = k) by lia. subst k'. apply (in_map fst) in H. exact H.
 Qed.
 
-Lemma ubi_process_spec : forall now id r s s' x, ubi_process now id r s = Ok (Some (s', x)) ->
-  us_recs s' = uset id (touch now r) (us_recs s) /\ 0 <= x /\ (u_dyn r = false -> x = ubi_amount r)
+Lemma ubi_process_spec : forall big now id r s s' x, ubi_process big now id r s = Ok (Some (s', x)) ->
+  us_recs s' = uset id (touch now r) (us_recs s) /\ 0 <= x /\ (u_dyn r = false -> x = ubi_amount big r)
   /\ us_minted s' = us_minted s + x.
 Proof.
-  intros now id r s s' x H. unfold ubi_process in H.
+  intros big now id r s s' x H. unfold ubi_process in H.
   assert (P : forall y, (if y <? 0 then Panic "negative coin amount"
                          else if y =? 0 then Ok None
                          else match uget (u_pool r) (us_books s) with
@@ -507,7 +520,7 @@ Proof.
     destruct (uget (u_pool r) (us_books s)); [|discriminate]. inversion Hy; subst. cbn. repeat split; lia. }
   destruct (u_dyn r) eqn:D.
   - destruct (uget (u_pool r) (us_books s)) as [b|] eqn:EB; [|discriminate].
-    destruct (ubi_amount r <=? b).
+    destruct (ubi_amount big r <=? b).
     + inversion H; subst. cbn. repeat split; try lia; try (intros; congruence).
     + destruct (P _ H) as (A & B & C & D'). repeat split; try assumption; try (intros; congruence).
   - destruct (P _ H) as (A & B & C & D'). repeat split; try assumption. intros _. exact C.
@@ -515,13 +528,14 @@ Qed.
 
 Section UbiGate.
 Variable gate : bool.
+Variable big : bool.
 Lemma ubi_loop_spec : forall now l s paid0 s' paid,
   NoDup (map fst l) -> (forall id, In id (map fst l) -> In id (map fst (us_recs s))) ->
-  ubi_loop gate now l s paid0 = Ok (s', paid) ->
+  ubi_loop gate big now l s paid0 = Ok (s', paid) ->
   map fst (us_recs s') = map fst (us_recs s) /\
   (forall id, ~ In id (map fst l) -> uget id (us_recs s') = uget id (us_recs s)) /\
   (forall id x, In (id, x) paid -> In (id, x) paid0 \/
-     exists r, In (id, r) l /\ ubi_due gate now r = true /\ 0 <= x /\ (u_dyn r = false -> x = ubi_amount r) /\
+     exists r, In (id, r) l /\ ubi_due gate now r = true /\ 0 <= x /\ (u_dyn r = false -> x = ubi_amount big r) /\
                uget id (us_recs s') = Some (touch now r)).
 Proof.
   intros now l. induction l as [|[id0 r0] l IH]; intros s paid0 s' paid ND Sub H; cbn [ubi_loop] in H.
@@ -529,8 +543,8 @@ Proof.
   - cbn [map fst] in ND. inversion ND as [|? ? Hnin ND']; subst.
     assert (Sub' : forall id, In id (map fst l) -> In id (map fst (us_recs s))) by (intros; apply Sub; right; assumption).
     destruct (ubi_due gate now r0) eqn:Due.
-    + unfold bind in H. destruct (ubi_process now id0 r0 s) as [[[s1 x1]|]| |] eqn:EP; try discriminate.
-      * destruct (ubi_process_spec _ _ _ _ _ _ EP) as (R1 & X0 & XD & _).
+    + unfold bind in H. destruct (ubi_process big now id0 r0 s) as [[[s1 x1]|]| |] eqn:EP; try discriminate.
+      * destruct (ubi_process_spec _ _ _ _ _ _ _ EP) as (R1 & X0 & XD & _).
         assert (K1 : map fst (us_recs s1) = map fst (us_recs s)) by (rewrite R1; apply keys_uset; apply Sub; left; reflexivity).
         destruct (IH s1 _ _ _ ND' ltac:(intros; rewrite K1; auto) H) as (A & B & C).
         split; [congruence|]. split.
@@ -553,8 +567,8 @@ Qed.
 (* every distribution of the end blocker passed the gate, pays the record's amount (a dynamic
    record at most the missing part), and stamps the record with the block time *)
 Theorem ubi_paid_only_when_due : forall now s s' paid id x,
-  NoDup (map fst (us_recs s)) -> ubi_endblock gate now s = Ok (s', paid) -> In (id, x) paid ->
-  exists r, In (id, r) (us_recs s) /\ ubi_due gate now r = true /\ 0 <= x /\ (u_dyn r = false -> x = ubi_amount r)
+  NoDup (map fst (us_recs s)) -> ubi_endblock gate big now s = Ok (s', paid) -> In (id, x) paid ->
+  exists r, In (id, r) (us_recs s) /\ ubi_due gate now r = true /\ 0 <= x /\ (u_dyn r = false -> x = ubi_amount big r)
             /\ uget id (us_recs s') = Some (touch now r) /\ NoDup (map fst (us_recs s')).
 Proof.
   intros now s s' paid id x ND H Hin. unfold ubi_endblock in H.
@@ -567,8 +581,8 @@ Qed.
    against the stamp left by the first *)
 Lemma ubi_two_payments : forall t1 t2 s s1 s2 p1 p2 id x1 x2,
   NoDup (map fst (us_recs s)) ->
-  ubi_endblock gate t1 s = Ok (s1, p1) -> In (id, x1) p1 ->
-  ubi_endblock gate t2 s1 = Ok (s2, p2) -> In (id, x2) p2 ->
+  ubi_endblock gate big t1 s = Ok (s1, p1) -> In (id, x1) p1 ->
+  ubi_endblock gate big t2 s1 = Ok (s2, p2) -> In (id, x2) p2 ->
   exists r, In (id, r) (us_recs s) /\ ubi_due gate t2 (touch t1 r) = true.
 Proof.
   intros t1 t2 s s1 s2 p1 p2 id x1 x2 ND H1 I1 H2 I2.
@@ -581,28 +595,28 @@ End UbiGate.
 
 (* ubi_once_per_period on the unrepaired gate: more than one period apart -- provided last+period
    does not wrap around in uint64 *)
-Theorem ubi_once_per_period_guarded : forall t1 t2 s s1 s2 p1 p2 id x1 x2,
+Theorem ubi_once_per_period_guarded : forall big t1 t2 s s1 s2 p1 p2 id x1 x2,
   NoDup (map fst (us_recs s)) ->
-  ubi_endblock false t1 s = Ok (s1, p1) -> In (id, x1) p1 ->
-  ubi_endblock false t2 s1 = Ok (s2, p2) -> In (id, x2) p2 ->
+  ubi_endblock false big t1 s = Ok (s1, p1) -> In (id, x1) p1 ->
+  ubi_endblock false big t2 s1 = Ok (s2, p2) -> In (id, x2) p2 ->
   exists r, In (id, r) (us_recs s) /\
             (0 <= t1 -> 0 <= u_period r -> t1 + u_period r < two64 -> t1 + u_period r < t2).
 Proof.
-  intros t1 t2 s s1 s2 p1 p2 id x1 x2 ND H1 I1 H2 I2.
-  destruct (ubi_two_payments false _ _ _ _ _ _ _ _ _ _ ND H1 I1 H2 I2) as (r & Hr & Due).
+  intros big t1 t2 s s1 s2 p1 p2 id x1 x2 ND H1 I1 H2 I2.
+  destruct (ubi_two_payments false big _ _ _ _ _ _ _ _ _ _ ND H1 I1 H2 I2) as (r & Hr & Due).
   exists r. split; [assumption|]. intros T0 P0 NW.
   rewrite ubi_gate_exact in Due by (cbn; lia). unfold ubi_due_exact in Due. cbn [touch u_last u_period] in Due. lia.
 Qed.
 
 (* ubi_once_per_period at full strength on the repaired gate (now >= last && now-last > period) *)
-Theorem ubi_once_per_period_repaired : forall t1 t2 s s1 s2 p1 p2 id x1 x2,
+Theorem ubi_once_per_period_repaired : forall big t1 t2 s s1 s2 p1 p2 id x1 x2,
   NoDup (map fst (us_recs s)) ->
-  ubi_endblock true t1 s = Ok (s1, p1) -> In (id, x1) p1 ->
-  ubi_endblock true t2 s1 = Ok (s2, p2) -> In (id, x2) p2 ->
+  ubi_endblock true big t1 s = Ok (s1, p1) -> In (id, x1) p1 ->
+  ubi_endblock true big t2 s1 = Ok (s2, p2) -> In (id, x2) p2 ->
   exists r, In (id, r) (us_recs s) /\ (0 <= u_period r -> t1 + u_period r < t2).
 Proof.
-  intros t1 t2 s s1 s2 p1 p2 id x1 x2 ND H1 I1 H2 I2.
-  destruct (ubi_two_payments true _ _ _ _ _ _ _ _ _ _ ND H1 I1 H2 I2) as (r & Hr & Due).
+  intros big t1 t2 s s1 s2 p1 p2 id x1 x2 ND H1 I1 H2 I2.
+  destruct (ubi_two_payments true big _ _ _ _ _ _ _ _ _ _ ND H1 I1 H2 I2) as (r & Hr & Due).
   exists r. split; [assumption|]. intros P0.
   rewrite ubi_gate_repaired in Due by (cbn; lia). unfold ubi_due_exact in Due. cbn [touch u_last u_period] in Due. lia.
 Qed.
@@ -613,8 +627,8 @@ Definition ubi_wrap_state : ustate := mkUS [(1, mkU 1700000020 0 1700000020 2 18
 Theorem ubi_once_per_period_refuted :
   exists t1 t2 s s1 s2 p1 p2 id x1 x2 r,
     NoDup (map fst (us_recs s)) /\
-    ubi_endblock false t1 s = Ok (s1, p1) /\ In (id, x1) p1 /\
-    ubi_endblock false t2 s1 = Ok (s2, p2) /\ In (id, x2) p2 /\
+    ubi_endblock false false t1 s = Ok (s1, p1) /\ In (id, x1) p1 /\
+    ubi_endblock false false t2 s1 = Ok (s2, p2) /\ In (id, x2) p2 /\
     In (id, r) (us_recs s) /\ 0 <= t1 /\ 0 <= u_period r /\ ~ (t1 + u_period r < t2).
 Proof.
   exists 1700000028, 1700000029, ubi_wrap_state.
@@ -900,6 +914,8 @@ Qed.
 
 Section ClaimRecords.
 Variable dynguard : bool.
+Variable payout_safe : bool.
+Variable quorum_checked : bool.
 Variable actors : list (Z * list Z).
 Variable U : list Z.
 
@@ -919,7 +935,7 @@ Proof.
     intro N. apply (claim_keeps_keys _ _ _ _ _ _ E). apply (IH _ _ _ H N).
 Qed.
 
-Lemma step_new_claim_record : forall now o s s' k, sp_apply dynguard actors U now o s = Ok s' ->
+Lemma step_new_claim_record : forall now o s s' k, sp_apply dynguard payout_safe quorum_checked actors U now o s = Ok s' ->
   pget k (s_claims s') <> None ->
   pget k (s_claims s) <> None \/ exists a p, o = ORegister a p /\ k = (p, a).
 Proof.
@@ -930,24 +946,27 @@ Proof.
   - unfold sp_register in H. destruct (zget p (s_pools s)); [|discriminate]. destruct (negb _); [discriminate|].
     inversion H; subst s'. cbn [s_claims] in N. rewrite pget_pset in N.
     destruct (pkey_eqb (p, a) k) eqn:E; [|auto]. apply pkey_eqb_eq in E. right. exists a, p. auto.
-  - left. exact (claim_keeps_keys _ _ _ _ _ _ H N).
+  - apply soften_ok in H. left. exact (claim_keeps_keys _ _ _ _ _ _ H N).
   - unfold sp_update in H. destruct (zget _ _); [|discriminate]. inversion H; subst; auto.
-  - unfold sp_distribute in H. destruct (zget _ _); [|discriminate]. left. exact (claim_all_keeps_keys _ _ _ _ _ _ H N).
-  - unfold sp_withdraw in H. destruct (zget _ _); [|discriminate]. unfold bind in H.
+  - apply soften_ok in H. unfold sp_distribute in H. destruct (zget _ _); [|discriminate]. left. exact (claim_all_keeps_keys _ _ _ _ _ _ H N).
+  - apply soften_ok in H. unfold sp_withdraw in H. destruct (zget _ _); [|discriminate]. unfold bind in H.
     destruct (withdraw_loop _ _ _ _ _ _) as [[? ?]| |]; try discriminate. inversion H; subst; auto.
   - unfold sp_endblock, bind in H. destruct (endblock_pools _ _ _ _ _ _); try discriminate. inversion H; subst; auto.
   - destruct (negb _); [discriminate|]. destruct (negb _); [discriminate|]. inversion H; subst; auto.
+  - destruct quorum_checked; [discriminate|]. destruct upd.
+    + unfold sp_update in H. destruct (zget _ _); [|discriminate]. inversion H; subst; auto.
+    + unfold sp_create in H. destruct (negb _); [discriminate|]. destruct (zhas _ _); [discriminate|]. inversion H; subst; auto.
 Qed.
 
 (* over every history: a (pool, account) claim record exists only if the account registered *)
 Theorem claim_records_only_by_register : forall h s k,
-  pget k (s_claims (sp_run dynguard actors U s h)) <> None ->
+  pget k (s_claims (sp_run dynguard payout_safe quorum_checked actors U s h)) <> None ->
   pget k (s_claims s) <> None \/ exists now a p, In (now, ORegister a p) h /\ k = (p, a).
 Proof.
   induction h as [|[now o] h IH]; intros s k N; cbn [sp_run fold_left] in N; [auto|].
   destruct (IH _ _ N) as [Hs|(now' & a & p & Hin & ->)].
   - unfold sp_step in Hs. cbn [fst snd] in Hs.
-    destruct (sp_apply dynguard actors U now o s) as [s'| |] eqn:E; auto.
+    destruct (sp_apply dynguard payout_safe quorum_checked actors U now o s) as [s'| |] eqn:E; auto.
     destruct (step_new_claim_record _ _ _ _ _ E Hs) as [L|(a & p & -> & ->)]; [auto|].
     right. exists now, a, p. split; [left; reflexivity | reflexivity].
   - right. exists now', a, p. split; [right; assumption | reflexivity].
